@@ -894,8 +894,17 @@ impl EventParser {
     fn type_named_by_value_path(path: &syn::Path, struct_expression: bool) -> String {
         let camel_case =
             |name: &str| name.starts_with(char::is_uppercase) && name.contains(char::is_lowercase);
-        let mut segments = path.segments.iter().rev().map(|s| s.ident.to_string());
+        // `r#Move { .. }` names the type `Move`
+        let mut segments = path
+            .segments
+            .iter()
+            .rev()
+            .map(|s| s.ident.unraw().to_string());
         let last = segments.next().unwrap_or_default();
+        // `Self { .. }` inside an impl block: the type is not named here
+        if last == "Self" {
+            return "unknown".to_string();
+        }
         match segments.next() {
             Some(previous) if previous == "Self" => "unknown".to_string(),
             Some(previous) if previous.starts_with(char::is_uppercase) => {
